@@ -23,7 +23,7 @@ ANCHORS = ["decaylanguage.modeling.amplitudechain:AmplitudeChain.read_ampgen", "
            "decaylanguage.modeling.ampgentransform:AmpGenTransformer.constant", "decaylanguage.utils.particleutils:particle_from_string_name"]
 WORKERS = {"quick": 4, "thorough": 16}
 WATCHDOG = {"quick": 900, "thorough": 3300}
-REQUIRED = {"read-through:base": 10, "read-through:goofit": 10, "read-through:goofitpy": 10, "read-through:user-reader-derived-from-the-base": 10, "read-through:user-reader-derived-from-a-converter": 10, "same-lines-read-again-under-the-other-cartesian-setting": 10, "expansion>=2x2": 10, "nesting-depth-3": 20, "resonance-without-alternatives": 20, "resonance-with>=2-alternatives": 20, "resonance-with-3-alternatives": 5,
+REQUIRED = {"read-after-an-abandoned-read:interrupted": 2, "read-through:base": 10, "read-through:goofit": 10, "read-through:goofitpy": 10, "read-through:user-reader-derived-from-the-base": 10, "read-through:user-reader-derived-from-a-converter": 10, "same-lines-read-again-under-the-other-cartesian-setting": 10, "expansion>=2x2": 10, "nesting-depth-3": 20, "resonance-without-alternatives": 20, "resonance-with>=2-alternatives": 20, "resonance-with-3-alternatives": 5,
             "tag:[S]": 10, "tag:[P]": 10, "tag:[D]": 10, "tag:[ls]": 10, "tag:[spin;ls]": 10, "cartesian:absent": 10, "cartesian:0": 10, "cartesian:1": 10,
             "parameter-rows": 20, "constant-rows": 20, "crlf": 5, "comments": 20, "eventtype-not-first": 5, "amplitudes>=8": 5, "unmemoised-read": 1, "flag-as-float-or-signed-literal": 10, "constant-name-repeated": 5, "ignored-line-kinds": 5,
             "shipped-model-or-test-text": 1, "read-after-a-failed-cartesian-read": 10, "conjugate-event-type": 20, "bare-use-in-another-spelling-of-the-particle": 5, "same-named-siblings-written-differently": 3, "same-complete-line-written-twice": 5, "coupling-very-small-or-phase-next-to-0-or-pi": 20, "free-flag-written-as-0.0-or-+0": 10}
